@@ -13,7 +13,7 @@
    Marshal/Unmarshal, MarshalIndent, Encoder/Decoder and streams), not modelled. *)
 From Coq Require Import NArith ZArith List Bool Arith Lia String.
 From GJ Require Import Base.Bytes Base.Word64 Gen.Tables Spec.Json Model.Int Model.StrEnc Model.StrDec Model.Enc Model.TreeRead
-  Proofs.WordP Proofs.IntEncP Proofs.IntDecP Proofs.IntScanP Proofs.StrBodyP Proofs.StrDecP Proofs.EncP Proofs.ParseP Proofs.LeafP Proofs.TreeReadP Model.Decode Model.EncTyped Proofs.RoundTripP.
+  Proofs.WordP Proofs.IntEncP Proofs.IntDecP Proofs.IntScanP Proofs.StrBodyP Proofs.StrDecP Proofs.EncP Proofs.ParseP Proofs.LeafP Proofs.TreeReadP Model.Decode Model.EncTyped Proofs.RoundTripP Model.Base64 Proofs.Base64P Proofs.Base64JsonP.
 From GJ Require Properties.C17.
 Import ListNotations.
 Open Scope list_scope.
@@ -80,7 +80,7 @@ Proof. intros html s Hs. exact (C17.C17_string_roundtrip html false s Hs). Qed.
 Print Assumptions C04_string_round_trip.
 
 (* (4) typed: for every type of the modelled fragment (bool, integers of every width, strings, pointers, slices, arrays,
-   maps with string keys, structs; Model/EncTyped.v and Model/Decode.v, both run beside the implementation) and every
+   maps with string keys, structs, []byte; Model/EncTyped.v and Model/Decode.v, both run beside the implementation) and every
    round-trippable value of it -- integers in range, strings that UTF-8 normalisation leaves alone, no pointer to a nil
    nilable, map members in key order, interface{} nil -- decoding what the encoder writes into a fresh value gives
    the value back *)
@@ -102,6 +102,30 @@ Example C04_typed_example :
   let v := VStruct [VPtr (VSlice [VInt (-128); VInt 127]); VMap [([107], VStr [34; 60]); ([108], VStr [])]; VArr [VInt 0; VInt 65535]; VNil] in
   rt t v = true /\ marshal_typed t v = str ("{""a"":[-128,127],""b"":{""k"":""\""\u003c"",""l"":""""},""c"":[0,65535],""d"":null}")%string /\
   dec 10 t (encj t v) (zero t) = DOk v.
+Proof. vm_compute. repeat split; reflexivity. Qed.
+
+(* (5) byte slices: Marshal writes base64 (padded standard alphabet) between quotes, Unmarshal hands the contents of
+   the string to the base64 decoder (Model/Base64.v, run beside encoding/base64 and beside the implementation).  For
+   EVERY byte string: decoding gives the bytes back; the text consists of alphabet characters, none of which the
+   string scanner changes, so the whole literal reads back as the bytes; and it is a well-formed string token *)
+Theorem C04_bytes_round_trip : forall bs, Forall (fun b => b < 256) bs -> b64dec (b64enc bs) = Some bs.
+Proof. exact b64_round_trip. Qed.
+Print Assumptions C04_bytes_round_trip.
+Theorem C04_bytes_through_the_string_literal : forall bs, Forall (fun b => b < 256) bs ->
+  match unq (b64enc bs) with Some s => b64dec s | None => None end = Some bs.
+Proof. exact b64_json_round_trip. Qed.
+Theorem C04_bytes_text : forall bs, Forall (fun b => b < 256) bs ->
+  forallb b64char (b64enc bs) = true /\ forallb plain_char (b64enc bs) = true /\ List.length (b64enc bs) = (4 * ((List.length bs + 2) / 3))%nat.
+Proof. intros bs H. split; [exact (b64enc_alphabet bs H)|split; [exact (b64_text_is_plain bs H)|exact (b64enc_length bs)]]. Qed.
+(* whatever text the decoder accepts (it also steps over CR and LF, and does not look at the unused bits of the last
+   sextet), what it stores are bytes *)
+Theorem C04_bytes_decoder_stores_bytes : forall s bs, b64dec s = Some bs -> Forall (fun b => b < 256) bs.
+Proof. exact b64dec_bytes. Qed.
+Example C04_bytes_example :
+  let t := TStruct [([98], TBytes); ([110], TBytes); ([101], TBytes)] in
+  let v := VStruct [VSlice [VInt 0; VInt 255; VInt 16; VInt 131]; VNil; VSlice []] in
+  rt t v = true /\ marshal_typed t v = str ("{""b"":""AP8Qgw=="",""n"":null,""e"":""""}")%string /\ dec 10 t (encj t v) (zero t) = DOk v /\
+  b64dec [65; 80; 56; 81; 10; 103; 119; 61; 13; 61; 10] = b64dec (str "AP8Qgw==")%string /\ b64dec (str "AP8Qgw=")%string = None /\ b64dec (str "AP8Qgx==")%string = Some [0; 255; 16; 131].
 Proof. vm_compute. repeat split; reflexivity. Qed.
 
 (* not vacuous: a struct with an omitted member, an array, a string with an escape, a negative number *)
